@@ -66,6 +66,21 @@ MODELS = {
     "AH96": ("protein", "tuple", "state", []),
     "AH96_mtmammals": ("protein", "tuple", "state", []),
 }
+# the mprob_model option of the supplied word-alphabet classes (how motif probabilities enter Q and the word
+# distribution): every accepted value, on codon (61 of 64 words), full dinucleotide and `motifs=` sub-alphabets
+DINUC_SUB = [a + b for a in "ACGT" for b in "ACGT" if a + b not in ("CG", "TA")]
+MPROB_OPTIONS = {      # option -> (weighting of the spec, pi kind)
+    "tuple": ("tuple", "state"), "word": ("tuple", "state"), "conditional": ("conditional", "state"),
+    "default": ("conditional", "state"),            # mprob_model=None on a word alphabet means "conditional"
+    "monomer": ("monomer", "nuc"), "monomers": ("monomers", "posn"),
+}
+for _mp, (_w, _pk) in MPROB_OPTIONS.items():
+    MODELS[f"CODON-{_mp}"] = ("codon", _w, _pk, ["kappa", "omega"])
+    MODELS[f"CODON-nonrev-{_mp}"] = ("codon", None, _pk, ["A>G", "C>T", "omega"])
+    MODELS.setdefault(f"DINUC-{_mp}", ("dinuc", _w, _pk, ["kappa", "CpG"]))
+    MODELS[f"DINUCSUB-{_mp}"] = ("dinuc:" + ",".join(DINUC_SUB), _w, _pk, ["kappa"])
+    MODELS[f"DINUCSUB-nonrev-{_mp}"] = ("dinuc:" + ",".join(DINUC_SUB), None, _pk, ["A>G", "C>T"])
+PI_KIND_OF = {"nuc": "monomer", "posn": "monomers"}
 # "to or from CpG" can be read two ways for the one codon pair CCG <-> CGG (a CG is destroyed and another one
 # created by the same change); the statement does not choose, so both readings are accepted
 CPG_READINGS = ("CpG", "CpG-one-window")
@@ -98,8 +113,26 @@ def make_model(case):
     from cogent3.evolve.predicate import MotifChange
     name = case["model"]
     kw = dict(case.get("mkw") or {})
-    if case.get("pi_via") == "model" and case.get("pi"):
+    if case.get("pi_via") == "model" and case.get("pi") and isinstance(case["pi"], dict):
         kw["motif_probs"] = dict(case["pi"])
+    if name.split("-")[0] in ("CODON", "DINUCSUB") or (name.startswith("DINUC-") and name.split("-")[1] in
+                                                       ("word", "default", "monomers")):
+        from cogent3.evolve.predicate import omega
+        parts = name.split("-")
+        mp = None if parts[-1] == "default" else parts[-1]
+        nonrev = "nonrev" in parts
+        kappa = (MotifChange("T", "C") | MotifChange("A", "G")).aliased("kappa")
+        ag, ct = MotifChange("A", "G", forward_only=True), MotifChange("C", "T", forward_only=True)
+        common = dict(recode_gaps=True, model_gaps=False, mprob_model=mp, name=name, **kw)
+        if parts[0] == "CODON":
+            if nonrev:
+                return NS.NonReversibleCodon(predicates=[ag, ct, omega], **common)
+            return SM.TimeReversibleCodon(predicates=[kappa, omega], **common)
+        if parts[0] == "DINUCSUB":
+            if nonrev:
+                return NS.NonReversibleDinucleotide(predicates=[ag, ct], motifs=list(DINUC_SUB), **common)
+            return SM.TimeReversibleDinucleotide(predicates=[kappa], motifs=list(DINUC_SUB), **common)
+        return SM.TimeReversibleDinucleotide(predicates=[kappa, MotifChange("CG").aliased("CpG")], **common)
     if name.startswith("DINUC-"):
         kappa = (MotifChange("T", "C") | MotifChange("A", "G")).aliased("kappa")
         cpg = MotifChange("CG").aliased("CpG")
@@ -162,6 +195,16 @@ class Expected:
         if self.pikind == "equal":
             st = S.states_of(self.family)
             self.pi = {s: 1.0 / len(st) for s in st}
+        elif case.get("pi") and self.pikind == "posn":
+            # position-specific nucleotide probabilities: given per position, or one vector for every position,
+            # or a distribution over the words (then its per-position marginals)
+            pi = case["pi"]
+            if isinstance(pi, list):
+                self.pi = [dict(d) for d in pi]
+            elif all(len(k_) == 1 for k_ in pi):
+                self.pi = [dict(pi)] * S.word_length(self.family)
+            else:
+                self.pi = S.position_marginals(self.family, pi)
         elif case.get("pi"):
             self.pi = dict(case["pi"])
         elif self.family == "protein":
@@ -233,7 +276,7 @@ class Expected:
         if key not in cache:
             spec_names = [{"G": self.cpg_reading, "G.K": self.cpg_reading + " & kappa"}.get(p, p) for p in self.pnames]
             cache[key] = S.rate_matrix(self.family, self.weighting, self.pi, dict(zip(spec_names, key)),
-                                       exchange=self.exchange)
+                                       exchange=self.exchange, pi_kind=PI_KIND_OF.get(self.pikind, "state"))
         return cache[key]
 
     def site_likelihoods(self, seqs):
@@ -290,11 +333,15 @@ def build_lf(case):
     aln = make_aligned_seqs(rows, moltype="protein" if fam == "protein" else "dna",
                             array_align=case.get("aln_class", "array") == "array")
     set_pi = case.get("pi") and case.get("pi_via", "lf") == "lf" and MODELS[case["model"]][2] != "equal"
-    if case.get("aln_first"):
+    per_position = isinstance(case.get("pi"), list)
+    if case.get("aln_first") or per_position:
         lf.set_alignment(aln)
-    if set_pi:
+    if per_position:        # one parameter rule per word position (set_motif_probs takes no per-position values)
+        for k_, d in enumerate(case["pi"]):
+            lf.set_param_rule("psmprobs", position=str(k_), value=dict(d), is_constant=True)
+    elif set_pi:
         lf.set_motif_probs(dict(case["pi"]))
-    if not case.get("aln_first"):
+    if not (case.get("aln_first") or per_position):
         lf.set_alignment(aln)
     for rule in case.get("rules", []):
         apply_rule(lf, rule)
